@@ -253,7 +253,9 @@ SUBCHECKS = {"hist": x_hist}
 TYPES = [["application", "octet-stream", {}], ["text", "plain", {"charset": "utf8"}], ["text", "plain", {}],
          ["application", "x-log", {"name": "r\xe9sum\xe9 \u2603.txt"}],
          ["text", "x-traceback", {"charset": "utf8", "language": "python"}],
-         ["video", "mp4", {"codecs": "avc1.42E01E, mp4a.40.2"}], ["application", "x-foo", {"a": "b c", "z": "1;2"}]]
+         ["video", "mp4", {"codecs": "avc1.42E01E, mp4a.40.2"}], ["application", "x-foo", {"a": "b c", "z": "1;2"}],
+         # parameter values that begin / end with white space (quoted on the wire: they travel as they are)
+         ["text", "x-log", {"title": " build log ", "charset": "utf8"}], ["application", "x-note", {"pad": "\u00a0x\t"}]]
 NAMES = ["foo", "log", "traceback", "d\xe9tail", "reason2", "bin", ""]
 
 
